@@ -120,6 +120,8 @@ class Interp:
         self.watch_calls: set[str] | None = None
         self.jelly_ns = self._build_jelly_ns()
         self.record_events = True
+        self.strict = True  # unknown external callables are an ANALYSIS-ERROR, not a guess
+        self.allow_unknown: set[str] = set()
 
     # ------------------------------------------------------------------ decisions
 
